@@ -97,6 +97,13 @@ pub fn tmpl(mut t: T) -> Template {
             if repl != Repl::Ops && t.faults.contains(&"stale_state") && rng.chance(2, 3) && !faults.iter().any(|f| f == "stale_state") {
                 faults.push("stale_state".into());
             }
+            // one run in six outside C19 also uses serde_json as wire and disk format, with restarts from the
+            // serialised form among its faults: state that does not survive a round trip (a cache marked
+            // serde(skip), a lossy decoder) must show through the property's own oracles
+            let json_wire = t.json || rng.chance(1, 6);
+            if json_wire && !t.json && !faults.is_empty() && rng.chance(2, 3) {
+                faults.push("bounce".into());
+            }
             let p_fault = if faults.is_empty() { 0 } else { 60 + rng.below(120) as u32 };
             Config {
                 family: t.family.to_string(),
@@ -107,7 +114,7 @@ pub fn tmpl(mut t: T) -> Template {
                 nmembers: rng.range(if t.misuse { 2 } else { 1 }, 3) as u8,
                 max_edits,
                 max_events: if long_typing { max_edits * 4 } else { max_edits * 7 + 12 },
-                json_wire: t.json,
+                json_wire,
                 misuse: t.misuse,
                 clauses: t.clauses.iter().map(|s| s.to_string()).collect(),
                 faults,
